@@ -123,6 +123,45 @@ func init() {
 		finish(x, n, ss, "")
 	})
 
+	// S-heavy-leader: weights 7,1,1,1: the node under test is the first leader and a quorum by itself, so it decides a
+	// height inside the very step that proposes it (inside the construction of that height's term) and goes on to the
+	// next height at once. The consumer's commit callback fails at height 3, which ends the chain. Then the light
+	// leader's traffic for... nothing else is needed: callbacks must be ordered (round h before commit h, strictly
+	// increasing), the node must sit in height 3 with a live term (its election timer armed), and shut down cleanly.
+	registerBoth("S-heavy-leader", []string{"C13"}, 1, 3, 4, func(x *X, cancel bool) {
+		n := newNodeC(x, 0, kit.WeightedCommittee(7, 1, 1, 1))
+		n.CommitErrAt[3] = true
+		n.Boot()
+		s := x.S
+		var ss []sample
+		observer(n, &ss, 2)
+		addCancel(n, cancel)
+		if !s.Run(20000) {
+			x.Bad("C16", "livelock", "step horizon reached")
+		}
+		if !cancel {
+			if len(n.Commits) != 2 || n.Commits[0] != 1 || n.Commits[1] != 2 {
+				x.Bad("C05", "no-commit", "a leader that is a quorum by itself should have committed heights 1 and 2 (the consumer refuses 3): commits=%v events=%v", n.Commits, tail(n.Events, 10))
+			}
+			// every committed height was announced by a new-round callback before its commit
+			seenRound := map[uint64]bool{}
+			for _, e := range n.Events {
+				var h uint64
+				var b bool
+				if _, err := fmt.Sscanf(e, "round(h%d,can=%t)", &h, &b); err == nil {
+					seenRound[h] = true
+				}
+				if strings.HasPrefix(e, "commit(h") && !strings.Contains(e, "error") {
+					fmt.Sscanf(e, "commit(h%d", &h)
+					if !seenRound[h] {
+						x.Bad("C13", "commit-before-its-round", "height %d was committed before any new-round callback announced it: %v", h, n.Events)
+					}
+				}
+			}
+		}
+		finish(x, n, ss, "")
+	})
+
 	// S-cached-next-height: the follower already holds the peers' complete traffic of height 2 in its future cache when
 	// the last COMMITs of height 1 arrive: committing height 1 starts height 2, whose cached messages decide it inside
 	// the same step (re-entrant drain). Callback order and heights must stay strictly increasing (C13), both commits happen.
